@@ -238,7 +238,9 @@ def wind_build(c, dtype='f'):
     f.createDimension('COL', nx)
     f.createDimension('VAR', 2)
     f.createDimension('DATE-TIME', 2)
-    f.LSTAGGER = np.array(c['stag'] if c['stag'] is not None else 0, dtype='>i')
+    # the stagger flag as users set it: a python int, a numpy scalar, a big-endian array; NaN = file without a flag
+    st = c['stag']
+    f.LSTAGGER = float('nan') if st is None else [st, np.int32(st), np.array(st, dtype='>i')][(st + nt + nz) % 3]
     tf = f.createVariable('TFLAG', 'i', ('TSTEP', 'VAR', 'DATE-TIME'))
     for t, (d, hhmm) in enumerate(c['flags']):
         tf[t, :, 0] = d + (2000 if d // 1000 < 70 else 1900) * 1000
